@@ -17,12 +17,12 @@ PROP = dict(
                            "mpt_object_set_string": 10000, "set_string:accepted": 3000, "monitor:string-readbacks-compared": 1000,
                            "mpt_axis_set": 5000, "mpt_line_set": 5000, "mpt_text_set": 5000, "mpt_graph_set": 5000, "mpt_world_set": 5000,
                            "color:wellformed-compared": 1000, "color:refused": 500,
-                           "monitor:read-by-spelling": 100000, "monitor:get-by-prefix": 50000, "monitor:fpoint-grid": 980, "fpoint:accepted": 150, "fpoint:refused": 500, "fpoint:iterator-source": 392, "monitor:twin-comparisons": 100000, "monitor:foreign-source-assignments": 5000, "foreign:refused": 2500, "monitor:entry-resets-compared": 5000, "monitor:entry-values-compared": 5000, "mpt_object_set_nodes": 2000}),
+                           "monitor:read-by-spelling": 100000, "monitor:get-by-prefix": 50000, "monitor:fpoint-grid": 980, "fpoint:accepted": 150, "fpoint:refused": 500, "fpoint:iterator-source": 392, "monitor:twin-comparisons": 100000, "monitor:foreign-source-assignments": 5000, "foreign:refused": 2500, "monitor:entry-resets-compared": 3000, "monitor:entry-values-compared": 3000, "mpt_object_set_nodes": 1000, "monitor:set-twice": 15000, "monitor:set-twice-both-accepted": 3000}),
               dict(name="c20_cxx", memcheck=500, src=["c20_cxx.cpp"], libs=["mpt++", "mptio", "mptplot", "mptcore"], batch=256, lsan=True,
                    cflags=["-fno-sanitize=vptr"],
                    floors={"object::set": 50000, "set:accepted": 10000, "set:refused": 5000, "monitor:readbacks-compared": 5000,
                            "monitor:copies-compared": 5000, "copy:accepted": 5000, "color:print-parse": 15000, "monitor:properties-compared": 200000,
-                           "monitor:read-by-spelling": 50000, "object::operator[]=": 30000, "assign:routes": 560, "monitor:assignments-compared": 520, "monitor:fpoint-grid": 196, "object::set(object)": 80, "monitor:foreign-source-assignments": 5000, "foreign:refused": 3000, "monitor:entry-resets-compared": 8000}),
+                           "monitor:read-by-spelling": 50000, "object::operator[]=": 30000, "assign:routes": 560, "monitor:assignments-compared": 520, "monitor:fpoint-grid": 196, "object::set(object)": 80, "monitor:foreign-source-assignments": 5000, "foreign:refused": 3000, "monitor:entry-resets-compared": 8000, "monitor:set-twice": 10000}),
               ],
         rule=("case = (a) one (kind, setter name, value class) triple on a scrambled object: set, reset, unknown name; (b) one PRNG sequence of 5..40 "
               "steps (set with a typed value, reset, copy/clear through \"\" and NULL names, whole-object reset, get by name, unknown names, "
